@@ -454,7 +454,7 @@ void libxmp_med_hold_hack(struct context_data *ctx, int pat, int chn, int row)
 		struct xmp_event *event = &EVENT(pat, chn, row + 1);
 		struct channel_data *xc = &p->xc_data[chn];
 
-		if (event->f2t == FX_MED_HOLD) {
+		if (event->f2t == FX_MED_HOLD && HAS_MED_CHANNEL_EXTRAS(*xc)) {
 			MED_CHANNEL_EXTRAS(*xc)->hold = 2;
 		}
 	}
